@@ -77,6 +77,16 @@ func init() {
 		pw := t.str()
 		idx := t.bytes()
 		ent := entFor(len(pw) + len(idx))
+		if len(idx) == 0 {
+			// the empty index in both of its Go forms: nil and empty-but-allocated
+			_, e1 := spg.Tokenize(pw, nil, ent)
+			_, e2 := spg.Tokenize(pw, spg.Indices{}, ent)
+			_, e3 := spg.Tokenize(pw, make(spg.Indices, 0, 4), ent)
+			if e1 == nil || e2 == nil || e3 == nil {
+				return "ok 0 EMPTY-INDEX-ACCEPTED entok=1"
+			}
+			return "err " + errKind(e1)
+		}
 		p, err := spg.Tokenize(pw, spg.Indices(idx), ent)
 		if err != nil {
 			return "err " + errKind(err)
